@@ -82,11 +82,13 @@ Step ==
                 \* a firing quartz dispatched before PauseSchedule / CancelSchedule took effect may enter the job function
                 \* after the stop returned (even after a following resume): it belongs to the stretch before the stop
                 inflight == (i.stopAt >= 0 /\ e.t > i.stopAt) \/ (early /\ i.grace > 0)
-                dist == ~inflight /\ i.lastStart >= 0 /\ e.t - i.lastStart < i.per \div 2 IN
+                \* catch-up burst (also among the firings dispatched just before a stop)
+                dist == i.lastStart >= 0 /\ e.t - i.lastStart < i.per \div 2 IN
             /\ Chk(i.kind = "Every" \/ i.starts = 0, "once-fired-twice", e.gen, i.starts + 1)
             /\ Chk(inflight \/ ~early, "fired-early", e.t, bound)
             /\ inst' = IF inflight
-                       THEN [inst EXCEPT ![e.gen].starts = @ + 1, ![e.gen].grace = IF @ > 0 THEN @ - 1 ELSE 0]
+                       THEN [inst EXCEPT ![e.gen].starts = @ + 1, ![e.gen].grace = IF @ > 0 THEN @ - 1 ELSE 0,
+                                         ![e.gen].lastStart = e.t, ![e.gen].disturbed = @ \/ dist]
                        ELSE [inst EXCEPT ![e.gen].nb = @ + 1, ![e.gen].starts = @ + 1, ![e.gen].lastStart = e.t, ![e.gen].disturbed = @ \/ dist]
             /\ ndist' = IF dist /\ ~i.disturbed THEN ndist + 1 ELSE ndist
             /\ UNCHANGED <<id, jit, known, cur>>
